@@ -4,7 +4,7 @@ import re, struct, itertools
 import gen_wopn
 
 
-def test_bank(rng, nmel=2, nperc=1, blanks=0.15, same_timbre=False):
+def test_bank(rng, nmel=2, nperc=1, blanks=0.15, same_timbre=False, key_on=None):
     """a small v2 WOPN image with recognisable timbres; returns bytes"""
     def inst(idx, blank, perc):
         name = (b"i%d" % idx).ljust(32, b"\0")
@@ -15,7 +15,7 @@ def test_bank(rng, nmel=2, nperc=1, blanks=0.15, same_timbre=False):
         if blank:
             rec += struct.pack(">HH", 0, 0)
         else:
-            rec += struct.pack(">HH", rng.choice([1, 40, 500, 5000, 40000, 65535]), rng.choice([0, 1, 100, 2000, 65535]))
+            rec += struct.pack(">HH", rng.choice([1, 40, 500, 5000, 40000, 65535]) if key_on is None else key_on, rng.choice([0, 1, 100, 2000, 65535]))
         return rec
     out = bytearray(gen_wopn.M2 + struct.pack("<H", 2) + struct.pack(">HH", nmel, nperc) + bytes([rng.randrange(16)]))
     ids = [(0, 0)] + [(rng.choice([0, 1, 5, 64, 127]), rng.choice([0, 1, 3, 127])) for _ in range(nmel - 1)]
